@@ -345,6 +345,60 @@ def race_burst(chk: core.Check, cfgs: list[str], rounds: int) -> None:
             h.close()
 
 
+def cursor_correspondence(chk: core.Check, n_cases: int) -> None:
+    """InMemoryStorage's WAITING shortcut vs the Lean cursor model (Model/InMemoryCursor.lean) and vs the plain filter."""
+    from optuna.storages import InMemoryStorage
+    from optuna.study import StudyDirection
+
+    core.ensure_driver()
+    drv = core.Driver("cursor")
+    r = chk.rng
+    try:
+        for case in range(n_cases):
+            drv.ask({"op": "reset"})
+            st = InMemoryStorage()
+            sid = st.create_new_study([StudyDirection.MINIMIZE], "cur%d" % case)
+            tids: list[int] = []
+            ops = []
+            for _ in range(r.randint(3, 25)):
+                k = r.random()
+                if k < 0.4 or not tids:
+                    state = r.choice([0, 4, 4, 1, 3])
+                    tmpl = None if state == 0 else create_trial(state=TrialState(state), value=1.0 if state == 1 else None)
+                    tids.append(st.create_new_trial(sid, tmpl))
+                    m = drv.ask({"op": "create", "st": state})
+                    ops.append(["create", state])
+                elif k < 0.75:
+                    n = r.randrange(len(tids))
+                    state = r.choice([0, 4, 4, 1, 3])
+                    try:
+                        st.set_trial_state_values(tids[n], TrialState(state), [1.0] if state == 1 else None)
+                    except Exception:  # noqa: BLE001 - finished trial: the model ignores it too
+                        pass
+                    m = drv.ask({"op": "set", "n": n, "st": state})
+                    ops.append(["set", n, state])
+                else:
+                    got = [t.number for t in st.get_all_trials(sid, deepcopy=False, states=(TrialState.WAITING,))]
+                    plain = [t.number for t in st.get_all_trials(sid, deepcopy=False) if t.state == TrialState.WAITING]
+                    m = drv.ask({"op": "get"})
+                    ops.append(["get"])
+                    if got != plain:
+                        chk.violation({"backend": "mem", "kind": "waiting-filter"}, {"ops": ops},
+                                      "InMemoryStorage.get_all_trials(states=(WAITING,)) returned %s but the WAITING trials are %s" % (got, plain))
+                        return
+                    if m.get("waiting") != got:
+                        chk.broke("correspondence", {"cursor-model": m, "impl": got, "ops": ops})
+                        return
+                cur = getattr(st, "_prev_waiting_trial_number", None)
+                if isinstance(cur, dict) and sid in cur and "cursor" in m and cur[sid] != m["cursor"]:
+                    chk.broke("correspondence", {"cursor-model": m["cursor"], "impl_cursor": cur[sid], "ops": ops})
+                    return
+            chk.case({"part": "cursor", "ops": ops}, nontrivial=any(o[0] == "set" and o[2] == 4 for o in ops))
+            chk.count("cursor-cases")
+    finally:
+        drv.close()
+
+
 def search(chk: core.Check) -> None:
     chk.search_log.append("searching more schedules for a doubly claimed or skipped queued trial")
     explore(chk, ["mem", "journal-symlink"], 400, True, tag="-search")
@@ -358,6 +412,10 @@ def main(chk: core.Check) -> int:
     explore(chk, ["mem", "journal-symlink", "journal-open"], 120 if quick else 2500, True)
     explore(chk, ["rdb", "cached", "grpc(mem)", "grpc(rdb)", "grpc(journal)"], 16 if quick else 400, False, tag="-free")
     race_burst(chk, ["rdb", "cached", "mem", "journal-symlink", "grpc(rdb)"], 150 if quick else 3000)
+    try:
+        cursor_correspondence(chk, 300 if quick else 6000)
+    except core.DriverBroken as e:
+        chk.broke("correspondence", {"driver": str(e)[:600]})
     chk.assumptions += ["fairness of the OS scheduler is not modelled: 'none is skipped' is checked as stated in DESIGN (an ask() that began after a trial was queued never creates a new trial while that one stays WAITING)",
                         "preemption points are source lines of optuna/{storages,study,trial}",
                         "suggest precedence (fixed params win) is proved in C10's model; here it is observed on the implementation"]
